@@ -133,6 +133,15 @@ func cmdCheck(args []string) int {
 		*tier = "quick"
 	}
 	start := time.Now()
+	// watchdog: an analysis that does not finish is undecided, never a pass
+	limit := 8 * time.Minute
+	if *tier == "thorough" {
+		limit = 40 * time.Minute
+	}
+	time.AfterFunc(limit, func() {
+		fmt.Printf("UNDECIDED analysis of %s did not finish within %s\n", *propID, limit)
+		os.Exit(2)
+	})
 	seed, _ := strconv.ParseInt(os.Getenv("VERIF_SEED"), 10, 64)
 	prop := rules.Get(*propID)
 	if prop == nil {
